@@ -872,9 +872,9 @@ static void InitFields(void) {
     AddReg("SUBR", 0x78d, SingleOp, SingleOp, SingleOp, True, True, False);
     AddReg("SUBRL", 0x79d, DoubleOp, DoubleOp, DoubleOp, True, True, False);
     AddReg("SYNLD", 0x615, IntOp, NoneOp, IntOp, False, False, False);
-    AddReg("SYNMOV", 0x600, IntOp, NoneOp, IntOp, False, False, False);
-    AddReg("SYNMOVL", 0x601, IntOp, NoneOp, IntOp, False, False, False);
-    AddReg("SYNMOVQ", 0x602, IntOp, NoneOp, IntOp, False, False, False);
+    AddReg("SYNMOV", 0x600, IntOp, IntOp, NoneOp, False, False, False);
+    AddReg("SYNMOVL", 0x601, IntOp, IntOp, NoneOp, False, False, False);
+    AddReg("SYNMOVQ", 0x602, IntOp, IntOp, NoneOp, False, False, False);
     AddReg("TANR", 0x68e, SingleOp, NoneOp, SingleOp, True, False, False);
     AddReg("TANRL", 0x69e, DoubleOp, NoneOp, DoubleOp, True, False, False);
     AddReg("XOR", 0x586, IntOp, IntOp, IntOp, True, True, False);
